@@ -239,6 +239,8 @@ class Explorer:
         self.mod = uni.mod
         self.z = sym.Z3Ctx(stats)
         self.z.classes = uni.classes
+        for ax in getattr(uni, 'axioms', None) or ():
+            self.z.add_axiom(self.z.to_z3(ax))
         self.script_out = {}
         self.monitors = monitors
         self.max_states = max_states
@@ -292,7 +294,7 @@ class Explorer:
             eng.add_node(n, k)
         for d, u in uni.edges:
             eng.depends_on(d, u)
-        return State(eng, {}, DriverView())
+        return State(eng, dict(getattr(uni, 'initial_pc', None) or {}), DriverView())
 
     def clone_engine(self, eng):
         e2 = E.Engine.__new__(E.Engine)
